@@ -1271,3 +1271,82 @@ Proof.
         -- destruct (HGPA w' (or_introl eq_refl)) as (Hp0 & HA0 & HP0). destruct (HGPA w (or_intror (or_introl eq_refl))) as (Hp1 & HA1 & HP1).
            now apply U2_else_two.
 Qed.
+
+(* ------------------------------------------------------------------------------------------------ *)
+(* Stage C: Q.set_contiguous *)
+Definition pairs (l : list item) : list (pq * status) := map (fun x => (ic x, ist x)) l.
+
+Lemma combine_pairs l : combine (map ic l) (map ist l) = pairs l.
+Proof. induction l as [|x t IH]; simpl; [reflexivity|]. now rewrite IH. Qed.
+
+Lemma pairs_app a b : pairs (a ++ b) = pairs a ++ pairs b.
+Proof. apply map_app. Qed.
+
+Lemma scan_E_false v l rest acc sre : Forall (fun x => ist x = SEmpty) l ->
+  q_scan v (pairs l ++ rest) acc false sre = q_scan v rest (acc ++ map ic l) false sre.
+Proof.
+  intros H. revert acc. induction H as [|x t Hx Ht IH]; intros acc; simpl; [now rewrite app_nil_r|].
+  rewrite Hx. rewrite IH, <- app_assoc. reflexivity.
+Qed.
+
+Lemma scan_E_true v l rest acc sre : Forall (fun x => ist x = SEmpty) l ->
+  q_scan v (pairs l ++ rest) acc true sre =
+  q_scan v rest (acc ++ map ic l) true (match l with [] => sre | _ => true end).
+Proof.
+  intros H. revert acc sre. induction H as [|x t Hx Ht IH]; intros acc sre; simpl; [now rewrite app_nil_r|].
+  rewrite Hx. rewrite IH, <- app_assoc. simpl. destruct t; reflexivity.
+Qed.
+
+Lemma scan_F v l rest acc sn : Forall (fun x => ist x = SFull) l ->
+  q_scan v (pairs l ++ rest) acc sn false =
+  q_scan v rest (acc ++ map ic l) (match l with [] => sn | _ => true end) false.
+Proof.
+  intros H. revert acc sn. induction H as [|x t Hx Ht IH]; intros acc sn; simpl; [now rewrite app_nil_r|].
+  rewrite Hx. rewrite IH, <- app_assoc. simpl. destruct t; reflexivity.
+Qed.
+
+Lemma scan_PA_first v a rest acc : ist a = SPartA ->
+  q_scan v ((ic a, ist a) :: rest) acc false false = q_scan v rest (acc ++ simplify v true (ic a)) true false.
+Proof. intros H. simpl. now rewrite H. Qed.
+
+Lemma scan_PA_second v b rest acc : ist b = SPartA ->
+  q_scan v ((ic b, ist b) :: rest) acc true false = q_scan v rest (acc ++ simplify v false (reverse (ic b))) true true.
+Proof. intros H. simpl. now rewrite H. Qed.
+
+(* the children in the stored order: empties, at most one partial child, full children, at most one partial child,
+   empties; d = the frontier reads the children forwards (true) or backwards (false) *)
+Definition side_ok (d first : bool) (v : nat) (x : item) : Prop :=
+  ist x = SPartA /\ (if Bool.eqb d first then zeros_ones (wd v x) else ones_zeros (wd v x)) = true.
+
+Definition Stored (d : bool) (v : nat) (T1 E1 Lp A Rp E3 : list item) : Prop :=
+  T1 = E1 ++ Lp ++ A ++ Rp ++ E3 /\
+  Forall (fun x => ist x = SEmpty) E1 /\ Forall (fun x => ist x = SEmpty) E3 /\ Forall (fun x => ist x = SFull) A /\
+  (Lp = [] \/ exists a, Lp = [a] /\ side_ok d true v a) /\ (Rp = [] \/ exists b, Rp = [b] /\ side_ok d false v b).
+
+(* the result of the scan on such a list *)
+Lemma scan_stored d v T1 E1 Lp A Rp E3 : Stored d v T1 E1 Lp A Rp E3 -> (Rp = [] \/ Lp <> [] \/ A <> []) ->
+  q_scan v (pairs T1) [] false false =
+  Ok (map ic E1 ++ match Lp with [a] => simplify v true (ic a) | _ => [] end ++ map ic A ++
+      match Rp with [b] => simplify v false (reverse (ic b)) | _ => [] end ++ map ic E3,
+      match Rp with [] => match E3 with [] => false | _ => match Lp, A with [], [] => false | _, _ => true end end | _ => true end).
+Proof.
+  intros (-> & HE1 & HE3 & HA & HL & HR) Hsn.
+  replace (E1 ++ Lp ++ A ++ Rp ++ E3) with (E1 ++ Lp ++ A ++ Rp ++ E3 ++ []) by now rewrite app_nil_r.
+  rewrite !pairs_app, (scan_E_false v E1 _ [] false HE1). cbn [app].
+  destruct HL as [->|(a & -> & Ha & _)]; destruct HR as [->|(b & -> & Hb & _)]; cbn [pairs map app].
+  - rewrite (scan_F v A _ _ false HA). cbn [pairs map app]. destruct A as [|a0 A'].
+    + rewrite (scan_E_false v E3 _ _ false HE3). simpl. rewrite !app_nil_r. destruct E3; reflexivity.
+    + rewrite (scan_E_true v E3 _ _ false HE3). simpl. rewrite <- !app_assoc. destruct E3; reflexivity.
+  - rewrite (scan_F v A _ _ false HA). destruct A as [|a0 A']; [destruct Hsn as [H|[H|H]]; congruence|].
+    rewrite scan_PA_second by exact Hb.
+    rewrite (scan_E_true v E3 _ _ true HE3). simpl. rewrite <- !app_assoc. simpl.
+    destruct E3; reflexivity.
+  - rewrite scan_PA_first by exact Ha. rewrite (scan_F v A _ _ true HA).
+    replace (match A with [] => true | _ :: _ => true end) with true by now destruct A.
+    cbn [pairs map app]. rewrite (scan_E_true v E3 _ _ false HE3). simpl. rewrite <- !app_assoc. destruct E3; reflexivity.
+  - rewrite scan_PA_first by exact Ha. rewrite (scan_F v A _ _ true HA).
+    replace (match A with [] => true | _ :: _ => true end) with true by now destruct A.
+    rewrite scan_PA_second by exact Hb.
+    rewrite (scan_E_true v E3 _ _ true HE3). simpl. rewrite <- !app_assoc. simpl.
+    destruct E3; reflexivity.
+Qed.
